@@ -156,6 +156,61 @@ def d_add(ex, callee, args, m):
     return VStruct("chrono::Duration", [VInt(r)])
 
 
+def d_new(ex, callee, args, m):
+    """chrono::TimeDelta::new(secs, nanos) -> Option: Some iff nanos < 1e9 and the value is within +-i64::MAX milliseconds"""
+    secs, nanos = args[0].t, args[1].t
+    total = smt.add(smt.mul(secs, smt.const(1_000_000_000)), nanos)
+    ok = smt.and_(smt.le(smt.const(0), nanos), smt.lt(nanos, smt.const(1_000_000_000)),
+                  smt.le(smt.const(-MAX_NS), total), smt.le(total, smt.const(MAX_NS)))
+    return VOpt(ok, VStruct("chrono::Duration", [VInt(total)]))
+
+
+def d_try_ctor(mult):
+    def f(ex, callee, args, m):
+        total = smt.mul(args[0].t, smt.const(mult))
+        ok = smt.and_(smt.le(smt.const(-MAX_NS), total), smt.le(total, smt.const(MAX_NS)))
+        return VOpt(ok, VStruct("chrono::Duration", [VInt(total)]))
+    return f
+
+
+def d_ctor(mult):
+    def f(ex, callee, args, m):
+        total = smt.mul(args[0].t, smt.const(mult))
+        ex.oblige(smt.or_(smt.lt(total, smt.const(-MAX_NS)), smt.gt(total, smt.const(MAX_NS))), "TimeDelta constructor out of bounds", callee)
+        return VStruct("chrono::Duration", [VInt(total)])
+    return f
+
+
+def d_checked(sign):
+    def f(ex, callee, args, m):
+        a, b = _deref(ex, args[0]).items[0].t, _deref(ex, args[1]).items[0].t
+        r = smt.add(a, b) if sign > 0 else smt.sub(a, b)
+        return VOpt(smt.and_(smt.le(smt.const(-MAX_NS), r), smt.le(r, smt.const(MAX_NS))), VStruct("chrono::Duration", [VInt(r)]))
+    return f
+
+
+def d_sub(ex, callee, args, m):
+    a, b = args[0].items[0].t, args[1].items[0].t
+    r = smt.sub(a, b)
+    ex.oblige(smt.or_(smt.lt(r, smt.const(-MAX_NS)), smt.gt(r, smt.const(MAX_NS))), "`TimeDelta - TimeDelta` overflowed", callee)
+    return VStruct("chrono::Duration", [VInt(r)])
+
+
+def s_opt_ok_or(ex, callee, args, m):
+    o = args[0]
+    return VRes(o.some, o.val, VOpaque("TError"))
+
+
+def s_opt_unwrap(ex, callee, args, m):
+    o = args[0]
+    ex.oblige(smt.not_(o.some), "called `Option::unwrap()` / `expect()` on a `None` value", callee)
+    if o.some.is_const and not o.some.val:
+        return _DIVERGE
+    ex.pc = smt.and_(ex.pc, o.some)
+    ex.assume_after_call = o.some
+    return o.val
+
+
 STR_NATIVES = [
     (N(r"^core::str::<impl str>::char_indices$"), s_char_indices),
     (N(r"^<CharIndices<'_> as Iterator>::next$"), s_ci_next),
@@ -171,7 +226,22 @@ STR_NATIVES = [
     (N(r"^core::str::<impl str>::parse::<i64>$"), s_parse_i64),
     (N(r"^Result::<i64, ParseIntError>::unwrap$"), s_res_unwrap),
     (N(r"^Result::<i64, ParseIntError>::map_err::<"), s_map_err),
-    (N(r"^<Result<i64, tea_error::TError> as Try>::branch$"), s_try_branch),
+    (N(r"^<Result<(?:i64|chrono::TimeDelta), tea_error::TError> as Try>::branch$"), s_try_branch),
+    (N(r"^Option::<chrono::TimeDelta>::ok_or(?:_else)?::<"), s_opt_ok_or),
+    (N(r"^Option::<chrono::TimeDelta>::(?:unwrap|expect)$"), s_opt_unwrap),
+    (N(r"^chrono::TimeDelta::new$"), d_new),
+    (N(r"^chrono::TimeDelta::try_seconds$"), d_try_ctor(1_000_000_000)),
+    (N(r"^chrono::TimeDelta::try_milliseconds$"), d_try_ctor(1_000_000)),
+    (N(r"^chrono::TimeDelta::milliseconds$"), d_ctor(1_000_000)),
+    (N(r"^chrono::TimeDelta::microseconds$"), d_ctor(1_000)),
+    (N(r"^chrono::TimeDelta::minutes$"), d_ctor(60 * 1_000_000_000)),
+    (N(r"^chrono::TimeDelta::hours$"), d_ctor(3600 * 1_000_000_000)),
+    (N(r"^chrono::TimeDelta::days$"), d_ctor(86400 * 1_000_000_000)),
+    (N(r"^chrono::TimeDelta::weeks$"), d_ctor(604800 * 1_000_000_000)),
+    (N(r"^chrono::TimeDelta::zero$"), lambda ex, c, a, m: VStruct("chrono::Duration", [VInt(0)])),
+    (N(r"^chrono::TimeDelta::checked_add$"), d_checked(+1)),
+    (N(r"^chrono::TimeDelta::checked_sub$"), d_checked(-1)),
+    (N(r"^<chrono::TimeDelta as Sub>::sub$"), d_sub),
     (N(r"^<Result<timedelta::TimeDelta, tea_error::TError> as FromResidual<Result<Infallible, tea_error::TError>>>::from_residual$"), s_from_residual),
     (N(r"^Arguments::<'_>::|^std::fmt::format$|^must_use::<String>$|^<String as Into<ErrInfo>>::into$|"
        r"^core::fmt::rt::Argument::<'_>::|^tea_error::__private::must_use$|"
